@@ -14,7 +14,6 @@ pub open spec fn in_u32(x: int) -> bool { 0 <= x < 0x1_0000_0000 }
 /// Unfit = a VLQ value beyond the 62-bit domain was met (outside the property's domain, nothing claimed)
 pub enum DecOut { Good(Seq<RawToken>, DecSt), Bad, Unfit }
 
-pub open spec fn bit_at(bits: Seq<bool>, i: int) -> bool { if 0 <= i < bits.len() { bits[i] } else { false } }
 
 pub open spec fn dec_segment(seg: Seq<u8>, acc: Seq<RawToken>, st: DecSt, line_no: int, seg_idx: int, bits: Seq<bool>, nsrc: int, nnames: int) -> DecOut {
     if seg.len() == 0 { DecOut::Good(acc, st) } else {
